@@ -38,6 +38,9 @@ CHECKEMPTYENUM == TRUE   \* an enum without cases is an error (`repr(int)` needs
 (* counts, and an impl block that names no type of its module is dropped silently; TRUE = the repaired     *)
 (* behaviour: the functions of all blocks count, in source order; an orphan block is an error              *)
 CHECKIMPLS == TRUE
+(* named deviation (C13): FALSE = what the code does: a base function whose name is taken is exposed as <field>_<name> *)
+(* even when that name is taken as well (the derived type then defines it twice); TRUE = that is an error             *)
+CHECKRENAME == FALSE
 
 ResNone == [k |-> "none"]
 NoVftRes == [has |-> FALSE, funcs |-> <<>>, baseField |-> "", ty |-> TNone]
